@@ -313,7 +313,10 @@ where
 #[derive(Clone)]
 pub struct CraftedRng {
     pub inner: ChaCha20Rng,
+    /// k < 100: every 32/64-byte draw starts with k zero bytes; k >= 100: the (k-100)-th 32/64-byte draw is entirely zero
+    /// (a slot nonce r = 0: its commitment is the identity point), the others are untouched
     pub zeros: usize,
+    pub calls: usize,
 }
 impl RngCore for CraftedRng {
     fn next_u32(&mut self) -> u32 {
@@ -324,6 +327,15 @@ impl RngCore for CraftedRng {
     }
     fn fill_bytes(&mut self, dest: &mut [u8]) {
         self.inner.fill_bytes(dest);
+        if self.zeros >= 100 {
+            if dest.len() == 32 || dest.len() == 64 {
+                if self.calls == self.zeros - 100 {
+                    dest.iter_mut().for_each(|b| *b = 0);
+                }
+                self.calls += 1;
+            }
+            return;
+        }
         if dest.len() == 32 {
             for b in dest.iter_mut().take(self.zeros) {
                 *b = 0;
@@ -454,12 +466,14 @@ where
         let (s, rs) = tape_of::<G, _>(&base, tape_len);
         (catch_unwind(AssertUnwindSafe(|| VerifiableRsaEncryption::<G>::encrypt_with_proof(&x, &pk, &label, c.sp, &mut pr))), s, rs)
     } else {
-        let cr = CraftedRng { inner: base, zeros: c.zeros };
+        let cr = CraftedRng { inner: base, zeros: c.zeros, calls: 0 };
         let mut pr = cr.clone();
         let (s, rs) = tape_of::<G, _>(&cr, tape_len);
         (catch_unwind(AssertUnwindSafe(|| VerifiableRsaEncryption::<G>::encrypt_with_proof(&x, &pk, &label, c.sp, &mut pr))), s, rs)
     };
-    if c.zeros > 0 {
+    if c.zeros >= 100 {
+        assert!(rs.iter().any(|s| bool::from(s.is_zero())), "crafted rng produced no zero nonce");
+    } else if c.zeros > 0 {
         // the crafted rng must really produce short encodings
         for s in &rs {
             let repr = s.to_repr();
@@ -601,6 +615,12 @@ pub fn run(kv: &Args) -> i32 {
             zeros: if i % 3 == 1 { 1 + (i / 3) % 2 } else { 0 },
         });
     }
+    // a tape on which one slot nonce is 0 (slot 77 / the last slot), and the largest key of the tier with 256 slots
+    let extra = cases.len();
+    cases.push(Case { id: extra, key: key_ids[0].to_string(), xkind: 6, label_len: 1, sp: None, zeros: 100 + 78 });
+    cases.push(Case { id: extra + 1, key: key_ids[0].to_string(), xkind: 3, label_len: 0, sp: Some(129), zeros: 100 + 128 });
+    cases.push(Case { id: extra + 2, key: key_ids[key_ids.len() - 1].to_string(), xkind: 6, label_len: 32, sp: Some(256), zeros: 0 });
+    let n_ok = cases.len();
     for (j, sp) in sps_bad.iter().enumerate() {
         cases.push(Case { id: n_ok + j, key: key_ids[0].to_string(), xkind: 6, label_len: 1, sp: *sp, zeros: 0 });
     }
